@@ -512,11 +512,22 @@ def span_of(spec):
 
 
 class _FakeTime:
+    """time.time() as seen by the scheduler module: the loop clock, plus a minute amount that
+    grows with every reading within one instant (two successive readings of a real clock are
+    never equal).  The loop rounds timer dates to the microsecond, so instants stay exact."""
+
     def __init__(self, loop):
         self._loop = loop
+        self._last = None
+        self._n = 0
 
     def time(self):
-        return self._loop.time()
+        now = self._loop.time()
+        if now != self._last:
+            self._last = now
+            self._n = 0
+        self._n += 1
+        return now + self._n * 1e-10
 
 
 class Trace:
